@@ -43,7 +43,7 @@ ALL_CMP = sorted(CMP)
 FEW_CMP = ["<", "in", "is not"]
 ASTOR_CLASS = "astor-fallback-unfaithful"
 FINDINGS = ["equal-precedence-right-operand", "singleton-tuple-comma", "subscript-tuple-index", "slice-bound-tuple",
-            ASTOR_CLASS, "nonfinite-float-as-name", "string-annotation-no-parent", "re-compile-keywords-dropped"]
+            ASTOR_CLASS, "nonfinite-float-as-name", "string-annotation-no-parent"]
 
 
 def kids_of(t: Dict[str, Any]) -> List[Dict[str, Any]]:
@@ -274,8 +274,7 @@ def expr_cfg(mode: str, cmp_used: List[str], open_ids: List[str], fixed_ids: Lis
 
 
 PROBES = {"equal-precedence-right-operand": "a-(b-c)", "singleton-tuple-comma": "(a,)",
-          "subscript-tuple-index": "x[()]", "slice-bound-tuple": "x[(a,):b]", "nonfinite-float-as-name": "1e999",
-          "re-compile-keywords-dropped": "re.compile('s', **o)"}
+          "subscript-tuple-index": "x[()]", "slice-bound-tuple": "x[(a,):b]", "nonfinite-float-as-name": "1e999"}
 LIT_PROBES = {"bytes-single-quote": b"'", "str-nul-dropped": "\0"}
 
 
@@ -292,10 +291,6 @@ def finding_status() -> Tuple[List[str], List[str]]:
     for fid, src in PROBES.items():
         e = ast.parse(src, mode="eval").body
         if same_expr(shown_inline(ast.parse(src, mode="eval").body)[0], e)[0]:
-            fixed.add(fid)
-    for fid, pat in RE_PROBES.items():
-        got = judge_regex(pat)[0]
-        if got is not None and same_regex(pat, got)[0]:
             fixed.add(fid)
     if quoted_probe_fixed():
         fixed.add("string-annotation-no-parent")
@@ -998,8 +993,6 @@ RE_ATOM_TEXT = {"a": "a", "b_plus": "b+", "a_star": "a*", "a_1_or_more": "a{1,}"
                 "not_a": "[^a]", "esc_dot": "\\.", "esc_hyphen": "\\-", "dot": ".", "scoped_i": "(?i:a)", "scoped_s": "(?s:.)",
                 "named_group": "(?P<n>a)", "cond_group": "(a)?(?(1)b|c)", "open_paren": "("}
 RE_ATOMS = sorted(RE_ATOM_TEXT)
-RE_FINDINGS = ["re-class-hyphen-unescaped", "re-scoped-flag-dropped"]
-RE_PROBES = {"re-class-hyphen-unescaped": "[a\\-z]", "re-scoped-flag-dropped": "(?i:a)"}
 _RE_SUBJECTS: List[str] = []
 
 
@@ -1094,14 +1087,6 @@ def run_regex(ctx: Ctx, open_ids: List[str], fixed_ids: List[str], stats: Dict[s
             stats["design_bad_but_real_ok"] += 1
         if stats["regexes"] % 150 == 3:
             ctx.sample({"pattern": pattern, "shown": shown})
-
-
-def kf_regex(fid: str, open_ids: List[str]):
-    def match(w: Dict[str, Any]) -> bool:
-        cl = w.get("design_classes") or []
-        return (w.get("invariant") == "RegexMeaning" and not w.get("drift") and fid in cl
-                and all(c in open_ids for c in cl))
-    return match
 
 
 # ------------------------------------------------------------------------------ random deeper trees
@@ -1212,8 +1197,6 @@ def run(ctx: Ctx) -> int:
         ctx.register_matcher(fid, kf_matcher(fid, open_ids))
     for fid in STR_FINDINGS:
         ctx.register_matcher(fid, kf_literal(fid, open_ids))
-    for fid in RE_FINDINGS:
-        ctx.register_matcher(fid, kf_regex(fid, open_ids))
     check_astor_table(ctx)
     stats = {k: 0 for k in ("seen", "drift", "design_bad", "violations", "incomplete", "necessity_checked",
                             "design_bad_but_real_ok", "strings", "layout", "layout_complete", "layout_wrapped",
